@@ -31,7 +31,7 @@ public:
   Matrix (T s) 
   {
     zero ();
-    for (unsigned i=0; i<Rows; i++)
+    for (unsigned i=0; i<Rows && i<Columns; i++)
       this->x[i][i] = s;
   }
 
